@@ -86,9 +86,22 @@ def run(R):
             return "F" if pos else "T"       # the edge on which an error WAS given
         return None
     # completing with the caller's `error` unchanged is only allowed when one was given: otherwise the default is substituted first
-    p = ccfg.find_path([ccfg.entry], sets, N, cut_nodes=dflt,
+    # (the same decision written as a conditional expression in the completing call counts: `X() if error is None else error`)
+    def substitutes(call):
+        a = call.args[0] if call.args else None
+        if not isinstance(a, ast.IfExp):
+            return False
+        k, s, pos = q.atom_test(a.test)
+        dflt_e, given_e = (a.body, a.orelse) if pos else (a.orelse, a.body)
+        return k == "isnone" and s == ep_c and isinstance(dflt_e, ast.Call) and (q.call_name(dflt_e) or "").endswith("BatchCancelledError") and q.src(given_e) == ep_c
+    def direct_default(call):
+        a = call.args[0] if call.args else None
+        return isinstance(a, ast.Call) and (q.call_name(a) or "").endswith("BatchCancelledError")
+    plain_sets = [n for n, c in kit.call_sites(ca, lambda c: q.call_name(c) == "self.set_error") if not substitutes(c) and not direct_default(c)]
+    inline_ok = [n for n, c in kit.call_sites(ca, lambda c: q.call_name(c) == "self.set_error") if substitutes(c) or direct_default(c)]
+    p = ccfg.find_path([ccfg.entry], plain_sets, N, cut_nodes=dflt,
                        keep_edge=lambda e: not (none_given(ccfg.nodes[e.src]) is not None and e.label == none_given(ccfg.nodes[e.src])))
-    R.check(p is None and dflt, "C11.CANCEL-NOOP", ca.qualname + ":default-error", R.site(ca),
+    R.check(p is None and (dflt or inline_ok), "C11.CANCEL-NOOP", ca.qualname + ":default-error", R.site(ca),
             "cancel() without an error completes the batch with a BatchCancelledError",
             "cancel() without an error can complete the batch with error None: the batch then counts as flushed successfully and its items get the 'not set' AssertionError",
             ccfg.fmt_path(p) if p else None)
